@@ -43,10 +43,13 @@ func runC10(c *Ctx) {
 // from function entry, not from a change of the in-memory map (shared with C08.R2).
 func c10R4(c *Ctx) {
 	const R4 = "C10.R4.returned-effects-persisted"
-	c.Expect(R4, 4)
+	c.Expect(R4, 5)
 	r := c08FindRoles(c, R4)
 	if r == nil {
 		return
+	}
+	for _, cs := range c08IndexCriticalSections(c.P, r) {
+		c.Check(R4, cs.Key, cs.Pos, cs.OK, ifelse(cs.OK, cs.How, cs.Why+" — two concurrent savers (Tag and Untag hold s.sync only in read mode) can then write index.json in the reverse order of their snapshots: an operation that already returned is undone on disk"))
 	}
 	promises, lost := c08PersistPromises(c.P, r)
 	for _, l := range lost {
@@ -333,7 +336,7 @@ func c10R2(c *Ctx) {
 				continue
 			}
 			n++
-			key := FnName(f) + "|" + CalleeName(call)
+			key := file + "|" + CalleeName(call) // keyed by the file role and the callee, not by the function that hosts the call
 			// creation: reached only when opening the same path reported "not exist" (here or before every call of the helper)
 			absentEdges := func(fn *ssa.Function, v c09Vals) []Edge {
 				if v["path"] == nil {
@@ -370,7 +373,7 @@ func c10R2(c *Ctx) {
 		for _, call := range Calls(f, func(nm string) bool { return nm == "os.Remove" || nm == "os.RemoveAll" }) {
 			if file := c10ReadBackFile(r, call.Common().Args[0]); file != "" {
 				n++
-				c.Violation(R2, FnName(f)+"|"+CalleeName(call), call.Pos(), file+" is removed: a process killed before it is recreated leaves a layout that oci.New cannot open (or that lost all tags)")
+				c.Violation(R2, file+"|"+CalleeName(call), call.Pos(), file+" is removed: a process killed before it is recreated leaves a layout that oci.New cannot open (or that lost all tags)")
 			}
 		}
 		// renames over a read-back file: the source must be a temporary sibling created in this function
@@ -389,7 +392,7 @@ func c10R2(c *Ctx) {
 					tmp = true
 				}
 			}
-			c.Check(R2, FnName(f)+"|os.Rename", call.Pos(), tmp, ifelse(tmp, file+" is replaced by renaming a file written in this function", "the rename source is not a file written by this function"))
+			c.Check(R2, file+"|os.Rename", call.Pos(), tmp, ifelse(tmp, file+" is replaced by renaming a file written in this function", "the rename source is not a file written by this function"))
 		}
 	}
 	if n == 0 {
@@ -775,10 +778,10 @@ var c10Mutants = []Mutant{
 	{Name: "layout-file-always-rewritten", File: "content/oci/oci.go",
 		Old:    "\t\tif !os.IsNotExist(err) {\n\t\t\treturn fmt.Errorf(\"failed to open OCI layout file: %w\", err)\n\t\t}\n",
 		New:    "",
-		Expect: "C10.R2.replace-by-rename|(*~/content/oci.Store).ensureOCILayoutFile|os.WriteFile"},
+		Expect: "C10.R2.replace-by-rename|oci-layout|os.WriteFile"},
 	{Name: "index-removed-before-rewrite", File: "content/oci/oci.go",
 		Old: "\treturn os.WriteFile(s.indexPath, indexJSON, 0666)\n", New: "\tos.Remove(s.indexPath)\n\treturn os.WriteFile(s.indexPath, indexJSON, 0666)\n",
-		Expect: "C10.R2.replace-by-rename|(*~/content/oci.Store).writeIndexFile|os.Remove"},
+		Expect: "C10.R2.replace-by-rename|index.json|os.Remove"},
 	// R3
 	{Name: "rename-despite-ingest-error", File: "content/oci/storage.go",
 		Old:    "\tingest, err := s.ingest(expected, content)\n\tif err != nil {\n\t\treturn err\n\t}\n",
@@ -813,6 +816,10 @@ var c10Mutants = []Mutant{
 		Old:    "\ts.tagResolver.Untag(reference)\n\tif s.AutoSaveIndex {\n\t\treturn s.saveIndex()\n\t}\n\treturn nil\n",
 		New:    "\ts.tagResolver.Untag(reference)\n\tif s.AutoSaveIndex && s.index != nil && len(s.index.Manifests) > 0 {\n\t\treturn s.saveIndex()\n\t}\n\treturn nil\n",
 		Expect: "C10.R4.returned-effects-persisted|(*~/content/oci.Store).Untag|success-implies-index-saved"},
+	{Name: "snapshot-outside-index-lock", File: "content/oci/oci.go",
+		Old:    "\ts.indexLock.Lock()\n\tdefer s.indexLock.Unlock()\n\n\tvar manifests []ocispec.Descriptor\n\ttagged := set.New[digest.Digest]()\n\trefMap := s.tagResolver.Map()\n",
+		New:    "\tvar manifests []ocispec.Descriptor\n\ttagged := set.New[digest.Digest]()\n\trefMap := s.tagResolver.Map()\n\n\ts.indexLock.Lock()\n\tdefer s.indexLock.Unlock()\n",
+		Expect: "C10.R4.returned-effects-persisted|(*~/content/oci.Store).saveIndex|snapshot-assignment-write-one-critical-section"},
 	// applies once D4 is repaired: the save is moved behind the sweep
 	{Name: "gc-saves-after-sweep", File: "content/oci/oci.go",
 		Old:    "\tif s.AutoSaveIndex {\n\t\tif err := s.saveIndex(); err != nil {\n\t\t\treturn err\n\t\t}\n\t}\n\treachableNodes := s.graph.DigestSet()\n",
